@@ -619,8 +619,21 @@ pub mod cn {
     }
 }
 verus! {
-// TRUSTED: the on-stack stack of component offsets (MaybeUninit array, unsafe) is modelled as a sequence (R8)
-pub uninterp spec fn stk_view<T, const C: usize>(s: crate::canon::StackStack<T, C>) -> Seq<T>;
+// The on-stack stack of component offsets: the first n slots of a MaybeUninit array, then the heap spill.
+// TRUSTED (unsafe code): a MaybeUninit slot holds the value last written to it (mu_val); reading it back is assume_init.
+pub uninterp spec fn mu_val<T>(m: std::mem::MaybeUninit<T>) -> T;
+pub open spec fn stk_view<T, const C: usize>(s: crate::canon::StackStack<T, C>) -> Seq<T> {
+    Seq::new(s.n as nat, |i: int| mu_val(s.vals@[i])) + s.spill@
+}
+/// the spill is only in use when the array is full
+pub open spec fn stk_wf<T, const C: usize>(s: crate::canon::StackStack<T, C>) -> bool {
+    s.n <= C && (s.spill@.len() > 0 ==> s.n == C)
+}
+/// R9 wrappers for MaybeUninit::write / assume_init
+#[verifier::external_body]
+pub fn vx_mu_write<T>(slot: &mut std::mem::MaybeUninit<T>, val: T) ensures mu_val(*final(slot)) == val { slot.write(val); }
+#[verifier::external_body]
+pub fn vx_mu_read<T: Copy>(slot: &std::mem::MaybeUninit<T>) -> (r: T) ensures r == mu_val(*slot) { unsafe { slot.assume_init() } }
 // TRUSTED (unsafe code): String::as_mut_vec exposes the utf-8 bytes; what is left in the vector is the string afterwards
 pub trait VxAsMutVec { fn vx_as_mut_vec(&mut self) -> (r: &mut Vec<u8>); }
 impl VxAsMutVec for String {
